@@ -374,6 +374,31 @@ def gen_candidate(rng, elems, mode=None):
     return gen_ranking(rng, pool, td, "complete"), mode
 
 
+def weak_orders(elems):
+    """all rankings with ties of exactly the given elements (as lists of buckets)"""
+    elems = list(elems)
+    if not elems:
+        return [[]]
+    res = []
+    first, rest = elems[0], elems[1:]
+    for r in weak_orders(rest):
+        for i in range(len(r)):
+            res.append(r[:i] + [r[i] + [first]] + r[i + 1:])
+        for i in range(len(r) + 1):
+            res.append(r[:i] + [[first]] + r[i:])
+    return res
+
+
+def all_rankings_over_subsets(elems):
+    """every ranking with ties over every subset of elems (the empty ranking included)"""
+    from itertools import combinations
+    out = []
+    for k in range(len(elems) + 1):
+        for sub in combinations(elems, k):
+            out.extend(weak_orders(sub))
+    return out
+
+
 def dataset_elems(raw):
     seen = []
     for r in raw:
